@@ -52,7 +52,7 @@ KERNELS = [
     "utf8_measure_from_latin_1", "utf8_convert_from_latin_1", "utf16_convert_from_latin_1", "utf32_convert_from_latin_1",
     "latin_1_measure_from_utf8", "latin_1_convert_from_utf8", "latin_1_measure_from_utf16", "latin_1_convert_from_utf16",
     "latin_1_convert_from_utf32",
-    "validate_utf8",
+    "validate_utf8", "cleanup_utf8",
 ]
 
 class Unsupported(Exception):
@@ -173,6 +173,7 @@ class Val:
         self.atom = atom
         self.boolean = boolean     # text is a decidable Prop
         self.raw8 = None           # for a value read through `const char *`: the name of the unsigned byte it came from
+        self.mem = None            # for a pointer value: the Lean text of the list it points into (None = the function's `mem`)
     def p(self):
         return self.text if self.atom else "(" + self.text + ")"
 
@@ -290,6 +291,15 @@ class Translator:
                 return self.load(fn, sub, env)
             if ck in ("NoOp", "BitCast") :
                 return self.expr(fn, sub, env)
+            if ck == "ArrayToPointerDecay":
+                x = sub
+                while x["kind"] in ("ParenExpr",):
+                    x = inner(x)[0]
+                if x["kind"] == "DeclRefExpr" and x["referencedDecl"].get("name") in self.arrays:
+                    r = Val("0", 0, 0, atom=True)
+                    r.mem = "[" + ", ".join(str(b) for b in self.arrays[x["referencedDecl"]["name"]]) + "]"
+                    return [], r, env
+                raise Unsupported("array used as a pointer")
             if ck == "PointerToBoolean":
                 x = sub
                 while x["kind"] in ("ImplicitCastExpr", "ParenExpr"):
@@ -298,6 +308,8 @@ class Translator:
                     var = env.vars.get(x["referencedDecl"]["name"], {})
                     if var.get("nullflag"):
                         return [], Val("%s = false" % var["nullflag"], 0, 1, boolean=True), env
+                    if var.get("kind") == "out":
+                        return [], Val("True", 1, 1, atom=True, boolean=True), env      # an output pointer nobody passes as null
                 raise Unsupported("pointer used as a truth value")
             if ck == "IntegralCast":
                 lines, v, env = self.expr(fn, sub, env)
@@ -474,7 +486,9 @@ class Translator:
             sym = {"<": "<", ">": ">", "<=": "≤", ">=": "≥", "==": "=", "!=": "≠"}[op]
             return lines, Val("%s %s %s" % (av.p(), sym, bv.p()), 0, 1, boolean=True), env
         if op == "+":
-            return lines, Val("%s + %s" % (av.p(), bv.p()), av.lo + bv.lo, av.hi + bv.hi), env
+            r = Val("%s + %s" % (av.p(), bv.p()), av.lo + bv.lo, av.hi + bv.hi)
+            r.mem = av.mem or bv.mem
+            return lines, r, env
         raise Unsupported("pointer " + op)
 
     def ptr_or_int(self, fn, n, env):
@@ -496,7 +510,9 @@ class Translator:
                 raise Unsupported("read of uninitialised " + name)
             if v["kind"] == "out":
                 raise Unsupported("value of the output pointer is used")
-            return [], Val(v["name"], v["lo"], v["hi"], isint=v["isint"], atom=True), env
+            r = Val(v["name"], v["lo"], v["hi"], isint=v["isint"], atom=True)
+            r.mem = v.get("mem")
+            return [], r, env
         if k == "UnaryOperator" and n["opcode"] == "*":
             sub = inner(n)[0]
             lines, idx, env = self.expr(fn, sub, env)
@@ -507,13 +523,14 @@ class Translator:
             l2, iv, env = self.expr(fn, idx, env)
             if iv.lo < 0:
                 raise Unsupported("negative subscript")
-            return self.read(fn, l1 + l2, Val("%s + %s" % (bv.p(), iv.p()), bv.lo + iv.lo, bv.hi + iv.hi), qt(n), env)
+            ix = Val("%s + %s" % (bv.p(), iv.p()), bv.lo + iv.lo, bv.hi + iv.hi); ix.mem = bv.mem
+            return self.read(fn, l1 + l2, ix, qt(n), env)
         raise Unsupported("load of " + k)
 
     def read(self, fn, lines, idx, elem_t, env):
         s, b = int_type(elem_t, self.enums)
         t = fn.fresh("t")
-        lines = lines + ["let %s ← rd%d mem %s" % (t, b, idx.p())]
+        lines = lines + ["let %s ← rd%d %s %s" % (t, b, idx.mem or "mem", idx.p())]
         if s:
             if b != 8:
                 raise Unsupported("read through a pointer to a signed type wider than char")
@@ -532,6 +549,7 @@ class Translator:
         if v["kind"] == "out":
             raise Unsupported("output pointer stepped outside `*dest++ = e`")
         old = Val(v["name"], v["lo"], v["hi"], isint=v["isint"], atom=True)
+        old.mem = v.get("mem")
         d = 1 if n["opcode"] == "++" else -1
         env = env.copy()
         new = fn.fresh(name)
@@ -551,6 +569,7 @@ class Translator:
                 nv["lo"], nv["hi"] = r
         env.vars[name] = nv
         newv = Val(new, nv["lo"], nv["hi"], isint=v["isint"], atom=True)
+        newv.mem = v.get("mem")
         return [line], (old if n.get("isPostfix") else newv), env
 
     def var_range(self, v):
@@ -577,17 +596,46 @@ class Translator:
         if callee["kind"] != "DeclRefExpr":
             raise Unsupported("indirect call")
         name = callee["referencedDecl"]["name"]
+        args = parts[1:]
+        pre_lines = []
+        if name in INLINE and name in self.fdecls:
+            # a small helper specialised per call site: the range a `const T *` parameter points into and constant integer
+            # arguments are fixed in a clone `<caller>_<callee><k>` translated from the helper's own body
+            decl = self.fdecls[name][0]
+            special = {}; key = []
+            for a, prm in zip(args, [c for c in inner(decl) if c["kind"] == "ParmVarDecl"]):
+                t = qt(prm)
+                if is_pointer(t) and "const" in pointee(t):
+                    l0, v0, _ = self.expr(fn, a, env)
+                    special[prm["name"]] = dict(mem=v0.mem or "mem"); key.append(v0.mem or "mem")
+                elif not is_pointer(t):
+                    l0, v0, _ = self.expr(fn, a, env)
+                    if not l0 and v0.lo == v0.hi:
+                        special[prm["name"]] = dict(const=v0.lo); key.append(str(v0.lo))
+            key = (name, tuple(key))
+            if key not in fn.clones:
+                cname = "%s_%s%d" % (fn.name, name, len(fn.clones) + 1)
+                fn.clones[key] = cname
+                fn.aux += self.function(name, special=special, as_name=cname)
+                fn.aux.append("")
+            name = fn.clones[key]
         if name not in self.sigs:
             raise Unsupported("call of a function that is not translated: " + name)
         sig = self.sigs[name]
-        args = parts[1:]
         lines = []; texts = []; inout = []
         if sig["mem"]:
             texts.append("mem")
         if sig.get("fuel"):
             texts.append("fuel"); fn.needs_fuel = True
         for a, p in zip(args, sig["params"]):
+            if p["kind"] == "omitted":
+                continue
             if p["kind"] == "out":
+                if p.get("nullflag"):
+                    x0 = a
+                    while x0["kind"] in ("ImplicitCastExpr", "ParenExpr"):
+                        x0 = inner(x0)[0]
+                    texts.append(env.vars.get(x0.get("referencedDecl", {}).get("name"), {}).get("nullflag") or "false")
                 x = a
                 while x["kind"] in ("ImplicitCastExpr", "ParenExpr"):
                     x = inner(x)[0]
@@ -731,7 +779,7 @@ class Translator:
                 raise Unsupported("uninitialised pointer " + name)
             l, v, env = self.expr(fn, init[0], env)
             nn = fn.fresh(name)
-            env.vars[name] = dict(name=nn, lo=v.lo, hi=v.hi, isint=False, kind="src", ctype=t)
+            env.vars[name] = dict(name=nn, lo=v.lo, hi=v.hi, isint=False, kind="src", ctype=t, mem=v.mem)
             return l + ["let %s := %s" % (nn, v.text)], env
         it = int_type(t, self.enums)
         if it is None:
@@ -782,7 +830,7 @@ class Translator:
                 # the stored unit is the bit pattern: a conversion to the (possibly signed) element type
                 # followed by reading it as unsigned is the conversion to the unsigned type of that width
                 while rhs["kind"] in ("ImplicitCastExpr", "CXXStaticCastExpr", "CStyleCastExpr", "ParenExpr") and \
-                        (rhs["kind"] == "ParenExpr" or (rhs.get("castKind") == "IntegralCast" and strip_cv(qt(rhs)) == strip_cv(et))):
+                        (rhs["kind"] == "ParenExpr" or (rhs.get("castKind") in ("IntegralCast", "NoOp") and strip_cv(qt(rhs)) == strip_cv(et))):
                     rhs = inner(rhs)[0]
                 l, v, env = self.expr(fn, rhs, env)
                 if env.pending is not None:
@@ -847,11 +895,23 @@ class Translator:
                 src = inner(src)[0]
             l, cv, env = self.expr(fn, cnt, env)
             if not (d["kind"] == "DeclRefExpr" and env.vars.get(d["referencedDecl"]["name"], {}).get("kind") == "out"
-                    and src["kind"] == "DeclRefExpr" and src["referencedDecl"]["name"] in self.arrays and not l and cv.lo == cv.hi
-                    and cv.lo <= len(self.arrays[src["referencedDecl"]["name"]]) and env.pending is None):
-                raise Unsupported("char_traits::copy other than (output position, constant array, constant count)")
-            env = env.copy(); env.pending = self.arrays[src["referencedDecl"]["name"]][:cv.lo]
-            return [], env
+                    and not l and cv.lo == cv.hi and env.pending is None):
+                raise Unsupported("char_traits::copy other than (output position, source, constant count)")
+            if src["kind"] == "DeclRefExpr" and src["referencedDecl"]["name"] in self.arrays:
+                if cv.lo > len(self.arrays[src["referencedDecl"]["name"]]):
+                    raise Unsupported("copy past the end of a constant array")
+                env = env.copy(); env.pending = self.arrays[src["referencedDecl"]["name"]][:cv.lo]
+                return [], env
+            # a block of `count` units read from a source range
+            ls, sv, env = self.expr(fn, args[1], env)
+            names = []
+            for i in range(cv.lo):
+                ix = Val("%s + %d" % (sv.p(), i), sv.lo + i, sv.hi + i) if i else sv
+                ix.mem = sv.mem
+                lr, tv, env = self.read(fn, [], ix, "unsigned char", env)
+                ls += lr; names.append(tv.text)
+            env = env.copy(); env.pending = names
+            return ls, env
         if kind == "CallExpr":
             l, _, env = self.call(fn, s, env)
             return l, env
@@ -1010,24 +1070,34 @@ class Translator:
         raise Unsupported("switch")
 
     # ------------------------------------------------------------------------- functions
-    def function(self, name):
+    def function(self, name, special=None, as_name=None):
         cands = self.fdecls.get(name, [])
         if len(cands) != 1:
             raise Unsupported("%d definitions of %s" % (len(cands), name))
         d = cands[0]
+        special = special or {}
         fn = Fn(self, d)
-        fn.loops = 0; fn.needs_fuel = False; fn.loopctx = []
+        if as_name:
+            fn.name = as_name
+        fn.loops = 0; fn.needs_fuel = False; fn.loopctx = []; fn.clones = {}
         env = Env()
         params = []; binders = []; fn.inouts = []; fn.has_out = False; uses_mem = False
         body = None
         for c in inner(d):
             if c["kind"] == "ParmVarDecl":
                 t = qt(c); pn = c["name"]; ln = lean_name(pn)
+                if "const" in special.get(pn, {}):
+                    k = special[pn]["const"]
+                    env.vars[pn] = dict(name=str(k), lo=k, hi=k, isint=False, kind="int", ctype=t)
+                    params.append(dict(kind="omitted"))
+                    continue
                 if is_pointer(t):
                     const = "const" in pointee(t)
                     if const:
-                        uses_mem = True
-                        env.vars[pn] = dict(name=ln, lo=0, hi=(1 << 62), isint=False, kind="src", ctype=t)
+                        region = special.get(pn, {}).get("mem")
+                        if region in (None, "mem"):
+                            uses_mem = True; region = None
+                        env.vars[pn] = dict(name=ln, lo=0, hi=(1 << 62), isint=False, kind="src", ctype=t, mem=region)
                         binders.append("(%s : Nat)" % ln)
                         if is_ref(t):
                             fn.inouts.append(pn); params.append(dict(kind="srcref", isint=False))
@@ -1044,6 +1114,10 @@ class Translator:
                         env.vars[pn] = dict(name=None, lo=0, hi=0, isint=False, kind="out", ctype=t)
                         env.out = "([] : List Nat)"
                         params.append(dict(kind="out", isint=False, ref=is_ref(t)))
+                        if null_tested(d, pn, self.sigs) or passed_to(d, pn, INLINE):
+                            env.vars[pn]["nullflag"] = ln + "_null"
+                            binders.append("(%s_null : Bool)" % ln)
+                            params[-1]["nullflag"] = True
                 else:
                     it = int_type(t, self.enums)
                     if it is None:
@@ -1077,13 +1151,28 @@ class Translator:
             rtys.append("List Nat")
         rty = " × ".join(rtys) if rtys else "Unit"
         uses_mem = uses_mem or fn.needs_fuel
+        name = fn.name
         head = "def %s %s%s%s: M (%s) := do" % (name, "(mem : List Nat) " if uses_mem else "", "(fuel : Nat) " if fn.needs_fuel else "",
                                                   " ".join(binders) + (" " if binders else ""), rty)
         fn.aux = [x.replace("%RTY%", rty) for x in fn.aux]
         self.sigs[name] = dict(mem=uses_mem, params=params, ret=fn.ret, out=fn.has_out, fuel=fn.needs_fuel)
         loc = d.get("loc", {})
-        src = "/-- `%s` (%s) -/" % (name, os.path.basename(loc.get("file", loc.get("includedFrom", {}).get("file", "")) or "") or "include/")
+        src = "/-- `%s` (%s) -/" % (d["name"] if not as_name else "%s, specialised for a call site of %s" % (d["name"], as_name.rsplit("_", 2)[0]), os.path.basename(loc.get("file", loc.get("includedFrom", {}).get("file", "")) or "") or "include/")
         return fn.aux + [src, head] + lines
+
+INLINE = {"append_chars"}
+
+def passed_to(fdecl, pname, callees):
+    def walk(n):
+        if n.get("kind") == "CallExpr" and callee_name(n) in callees:
+            for a in inner(n)[1:]:
+                x = a
+                while x.get("kind") in ("ImplicitCastExpr", "ParenExpr"):
+                    x = inner(x)[0]
+                if x.get("kind") == "DeclRefExpr" and x["referencedDecl"].get("name") == pname:
+                    return True
+        return any(walk(c) for c in n.get("inner", []) if isinstance(c, dict))
+    return walk(fdecl)
 
 def null_tested(fdecl, pname, sigs={}):
     def walk(n):
